@@ -28,7 +28,9 @@ impl Element {
 
 impl Hash for Element {
     fn hash<H: core::hash::Hasher>(&self, state: &mut H) {
-        self.inner.hash(state);
+        // Equal elements may be stored as different curve points (either member
+        // of the coset, any projective scaling), so hash the canonical encoding.
+        self.vartime_compress().0.hash(state);
     }
 }
 
